@@ -5,6 +5,7 @@
 package chainh
 
 import (
+	"bytes"
 	"encoding/binary"
 	"fmt"
 	"strings"
@@ -349,6 +350,7 @@ type blockBuilder struct {
 	sizeTo   int          // pad the block to exactly this stripped size (0: no padding)
 	weightTo int          // pad the block to exactly this weight; weightTx's first witness item absorbs the remainder
 	weightTx *wire.MsgTx
+	decoy    string // "before": a wrong commitment-shaped output precedes the real one (valid: the last one counts); "after": it follows it (invalid)
 }
 
 type cand struct {
@@ -573,7 +575,7 @@ func (bb *blockBuilder) commitAndPad() {
 		return
 	}
 	cb := bb.txs[0]
-	commit := false
+	commit := bb.decoy != ""
 	if !bb.noCommit {
 		for _, tx := range bb.txs[1:] {
 			if tx.HasWitness() {
@@ -588,8 +590,15 @@ func (bb *blockBuilder) commitAndPad() {
 			nonce = make([]byte, 32)
 		}
 		cb.TxIn[0].Witness = wire.TxWitness{nonce}
+		wrong := commitmentScript(bytes.Repeat([]byte{0x5a}, 32))
+		if bb.decoy == "before" {
+			cb.AddTxOut(&wire.TxOut{Value: 0, PkScript: wrong})
+		}
 		cb.AddTxOut(&wire.TxOut{Value: 0, PkScript: commitmentScript(make([]byte, 32))})
 		ci = len(cb.TxOut) - 1
+		if bb.decoy == "after" {
+			cb.AddTxOut(&wire.TxOut{Value: 0, PkScript: wrong})
+		}
 	}
 	if bb.sizeTo > 0 || bb.weightTo > 0 {
 		cb.AddTxOut(&wire.TxOut{Value: 0})
